@@ -180,6 +180,55 @@ func main() {
 		}
 	}
 	flush("CEdMul")
+	// Embed / Data / Pick on the same payload and stream, at every payload-length boundary
+	{
+		r := rng.Fork()
+		l := eds[0].G.Point().EmbedLen()
+		np := func(in grpprog.Inst) kyber.Point {
+			p := in.G.Point()
+			if in.VarTime {
+				if a, ok := p.(kyber.AllowsVarTime); ok {
+					a.AllowVarTime(true)
+				}
+			}
+			return p
+		}
+		for _, n := range []int{-1, 0, 0, 1, 2, l / 2, l - 1, l, l + 1, l + 9, r.Intn(l + 1), r.Intn(l + 1)} {
+			var data []byte // n = -1: nil (Pick)
+			if n >= 0 {
+				data = append(make([]byte, 0, n+1), r.Bytes(n)...)
+			}
+			seed := r.Bytes(16)
+			var refE, refD []byte
+			for i, in := range eds {
+				var e, d []byte
+				pn, msg := vh.Try(func() {
+					p := np(in).Embed(data, vh.NewSeqStream(seed))
+					e = enc(p)
+					dd, err := p.Data()
+					if err != nil {
+						d = []byte("ERR:" + err.Error())
+					} else {
+						d = append([]byte("OK:"), dd...)
+					}
+				})
+				if pn {
+					rep.Fail("C18/"+in.Name+"/embed-panic", msg, map[string]string{"payload": vh.Hex(data)})
+					continue
+				}
+				rep.Dist(fmt.Sprintf("ed25519:embed:len=%d", n))
+				if i == 0 {
+					refE, refD = e, d
+					continue
+				}
+				if !bytes.Equal(e, refE) || !bytes.Equal(d, refD) {
+					rep.Fail("C18/"+in.Name+"/embed-differs", "implementations of Ed25519 disagree on Embed/Data for the same payload and stream",
+						map[string]string{"impl": in.Name, "payload_len": fmt.Sprint(n), "payload": vh.Hex(data), "stream_seed": vh.Hex(seed),
+							"point": vh.Hex(e), "reference_point": vh.Hex(refE), "data": string(d[:min(len(d), 3)]) + vh.Hex(d[min(len(d), 3):]), "reference_data": string(refD[:min(len(refD), 3)]) + vh.Hex(refD[min(len(refD), 3):])})
+				}
+			}
+		}
+	}
 	// crypto/ed25519 key derivation: public key = clamp(SHA-512(seed)[:32]).B
 	for i := 0; i < nk/2+1; i++ {
 		r := rng.Fork()
